@@ -6,7 +6,7 @@ use serde_json::{json, Value};
 use std::io::{BufRead, Write};
 use ttl_cache::TtlCache;
 
-fn frame(src: [u8; 4], dst: [u8; 4], sport: u16, dport: u16, seq: u32, flags: u8, payload: &[u8], ipid: u16) -> Vec<u8> {
+pub fn frame(src: [u8; 4], dst: [u8; 4], sport: u16, dport: u16, seq: u32, flags: u8, payload: &[u8], ipid: u16) -> Vec<u8> {
     frame_opts(src, dst, sport, dport, seq, flags, &[], payload, ipid)
 }
 
